@@ -318,12 +318,18 @@ def rewind (o : Opts) (v : Variant) (l : Lexer) (offset : Nat) : Lexer :=
 
 def bom : List UInt8 := [0xEF, 0xBB, 0xBF]
 
-/-- `func (l *Lexer) Init(source string)`. -/
+/-- Offset of the first token: after the byte-order mark
+(`if strings.HasPrefix(source, bomSeq) { l.offset += len(bomSeq) }`, with `skipByteOrderMark`). -/
+def startOffset (o : Opts) (src : List UInt8) : Nat := if o.skipBOM && src.take 3 == bom then 3 else 0
+
+/-- The fields `Init` assigns before it calls `rewind`. -/
+def initLexer (source : List UInt8) (off : Nat) : Lexer :=
+  { source := source, ch := 0, offset := off, scanOffset := 0, tokenOffset := 0,
+    line := 1, tokenLine := 1, lineOffset := 0, tokenColumn := 1, state := 0 }
+
+/-- `func (l *Lexer) Init(source string)`: reset, skip the BOM, `l.rewind(l.offset)`. -/
 def init (o : Opts) (v : Variant) (source : List UInt8) : Lexer :=
-  let l : Lexer := { source := source, ch := 0, offset := 0, scanOffset := 0, tokenOffset := 0,
-                     line := 1, tokenLine := 1, lineOffset := 0, tokenColumn := 1, state := 0 }
-  let l := if o.skipBOM && source.take 3 == bom then { l with offset := l.offset + 3 } else l
-  rewind o v l l.offset
+  rewind o v (initLexer source (startOffset o source)) (startOffset o source)
 
 /-- The newline bookkeeping in the loop of `Next`, before the character is consumed. -/
 def newlineBook (o : Opts) (v : Variant) (l : Lexer) : Lexer :=
@@ -594,9 +600,6 @@ def specTokenize (sp : Spec) (src : List UInt8) (state : Int) : Nat → Nat → 
       if tok = 0 then some [specTok sp src tok a b]
       else (specTokenize sp src state n b).map (specTok sp src tok a b :: ·)
 
-/-- Offset of the first token: after the byte-order mark. -/
-def startOffset (o : Opts) (src : List UInt8) : Nat := if o.skipBOM && src.take 3 == bom then 3 else 0
-
 /-! ## Decidable well-formedness (`TablesWF`) -/
 
 /-- Following the EOI column from `state` (checkpoints included) reaches a final action within
@@ -666,7 +669,7 @@ def tablesWF (sp : Spec) (exempt : List Int) : Bool :=
   sp.t.wf &&
   decide (sp.t.dfa.size = numStates sp.t * sp.t.numSymbols.toNat) &&
   decide (sp.t.scanBytes = sp.opts.scanBytes) &&
-  decide (0 ≤ invalidAct sp) && (tokenOf sp (invalidAct sp)).isSome &&
+  decide (0 ≤ invalidAct sp) && (tokenOf sp (invalidAct sp)).any (· != 0) &&
   classMapInRange sp.cm sp.t.numSymbols &&
   -- every final action in the table is usable
   sp.t.dfa.all (fun e => decide (e > actionStart sp.t) || e == actionStart sp.t - invalidAct sp ||
